@@ -165,6 +165,12 @@ def run_case(ctx, name, params):
                 else:
                     changed_n = False
                 o.init(N)
+                if r.random() < 0.3:
+                    # another generator object of the same class, for another problem, is used in between
+                    o2 = cls_(params_for(gen.boxes(r, r.randint(1, 5), "unit")))
+                    o2.init(r.randint(2, 3) if g == "uniform" else r.randint(1, 30))
+                    o2.generate()
+                    ctx.count("sibling_generator_uses_in_between")
                 if round_ and minimal and not changed_n:
                     q = r.choice(Pm)
                     lb = q["bounds"][0]
